@@ -72,6 +72,10 @@ type RRSpec struct {
 	Plan        *PNode `json:"plan"`
 	Spawn       bool   `json:"always_spawn_goroutine"`
 	MinInterval int    `json:"min_rerun_interval_us"`
+	// HoldRun > 0: that run of the compute function parks at a harness gate
+	// (after its reads, ignoring its context, like a computation busy in a
+	// call that does not watch ctx) until the pinned-stops op releases it.
+	HoldRun int `json:"hold_run,omitempty"`
 }
 
 // Leafset lists every cell the plan can read (directly or through children).
@@ -145,7 +149,7 @@ func (p *PNode) Shape() string {
 
 // AddRerunner creates the monitor side of a rerunner (Start launches it).
 func (w *World) AddRerunner(spec *RRSpec) *RR {
-	rr := &RR{w: w, Idx: len(w.RRs), Spec: spec, started: make(chan struct{})}
+	rr := &RR{w: w, Idx: len(w.RRs), Spec: spec, started: make(chan struct{}), holdCh: make(chan struct{})}
 	w.RRs = append(w.RRs, rr)
 	return rr
 }
@@ -181,6 +185,27 @@ func (rr *RR) compute(ctx context.Context) (interface{}, error) {
 	w.bump()
 
 	out, err := rr.eval(ctx, rr.Spec.Plan, id, self)
+
+	if rr.Spec.HoldRun == id {
+		w.mu.Lock()
+		rr.parked = true
+		w.logLocked("run-parked", rr.Idx, id, "")
+		w.mu.Unlock()
+		w.bump()
+		t := time.NewTimer(300 * time.Millisecond) // safety net only
+		select {
+		case <-rr.holdCh:
+		case <-t.C:
+			w.mu.Lock()
+			w.Stats["parked_run_released_by_safety_timeout"]++
+			w.mu.Unlock()
+		}
+		t.Stop()
+		w.mu.Lock()
+		rr.parked = false
+		w.logLocked("run-unparked", rr.Idx, id, "")
+		w.mu.Unlock()
+	}
 
 	w.mu.Lock()
 	rr.inflight--
